@@ -23,16 +23,19 @@ type step struct {
 }
 
 type exchCase struct {
-	Op     string    `json:"op"`
-	Client string    `json:"client"`
-	Req    codecCase `json:"req"`
-	Reply  []int     `json:"reply"`
-	Script []step    `json:"script"`
-	Fault  string    `json:"fault"`
-	Hooks  int       `json:"hooks"`
-	Pair   int       `json:"pair"`
-	A      *exchCase `json:"a"`
-	B      *exchCase `json:"b"`
+	Op     string      `json:"op"`
+	Client string      `json:"client"`
+	Req    codecCase   `json:"req"`
+	Reply  []int       `json:"reply"`
+	Script []step      `json:"script"`
+	Fault  string      `json:"fault"`
+	Hooks  int         `json:"hooks"`
+	Pair   int         `json:"pair"`
+	A      *exchCase   `json:"a"`
+	B      *exchCase   `json:"b"`
+	Seq    []*exchCase `json:"seq"`
+	SeqPos int         `json:"seqpos"`
+	SeqLen int         `json:"seqlen"`
 }
 
 var errInjected = errors.New("verif: injected transport failure")
@@ -172,19 +175,20 @@ func (c *scriptConn) SetDeadline(t time.Time) error      { return nil }
 func (c *scriptConn) SetReadDeadline(t time.Time) error  { return nil }
 func (c *scriptConn) SetWriteDeadline(t time.Time) error { return nil }
 
-type hookRec struct{ log *exchLog }
+// hookRec writes to the log of the exchange currently loaded into the transport
+type hookRec struct{ conn *scriptConn }
 
 func (h *hookRec) BeforeWrite(b []byte) {
-	h.log.add(Ev{"ev": "hook.beforeWrite", "bytes": ints(b)})
+	h.conn.log.add(Ev{"ev": "hook.beforeWrite", "bytes": ints(b)})
 }
 func (h *hookRec) AfterEachRead(b []byte, n int, err error) {
-	if !h.log.lastLogged {
+	if !h.conn.log.lastLogged {
 		return
 	}
-	h.log.add(Ev{"ev": "hook.afterRead", "bytes": ints(b), "n": n, "err": errKind(err)})
+	h.conn.log.add(Ev{"ev": "hook.afterRead", "bytes": ints(b), "n": n, "err": errKind(err)})
 }
 func (h *hookRec) BeforeParse(b []byte) {
-	h.log.add(Ev{"ev": "hook.beforeParse", "bytes": ints(b)})
+	h.conn.log.add(Ev{"ev": "hook.beforeParse", "bytes": ints(b)})
 }
 
 type doer interface {
@@ -197,7 +201,62 @@ func argsEv(a *codecCase) Ev {
 	return Ev{"fc": a.Fc, "unit": a.Unit, "addr": a.Addr, "qty": a.Qty, "data": orEmpty(a.Data), "coils": orEmpty(a.Coils), "waddr": a.Waddr, "tid": a.Tid}
 }
 
+// exchClient is one client instance with its scripted transport; a sequence of exchanges can run on it
+type exchClient struct {
+	kind      string
+	conn      *scriptConn
+	cl        doer
+	connect   func() error
+	connected bool
+	hooks     bool
+}
+
+func newExchClient(kind string, hooks bool, timeoutMs int, serialNil bool) *exchClient {
+	ec := &exchClient{kind: kind, hooks: hooks}
+	ec.conn = &scriptConn{log: &exchLog{}, serial: kind == "serial"}
+	var hk modbus.ClientHooks
+	if hooks {
+		hk = &hookRec{conn: ec.conn}
+	}
+	timeout := time.Duration(timeoutMs) * time.Millisecond
+	switch kind {
+	case "tcp", "rtu":
+		conf := modbus.ClientConfig{ReadTimeout: timeout, WriteTimeout: timeout,
+			DialContextFunc: func(ctx context.Context, address string) (net.Conn, error) { return ec.conn, nil }}
+		if hk != nil {
+			conf.Hooks = hk
+		}
+		var nc *modbus.Client
+		if kind == "tcp" {
+			nc = modbus.NewTCPClientWithConfig(conf)
+		} else {
+			nc = modbus.NewRTUClientWithConfig(conf)
+		}
+		ec.cl = nc
+		ec.connect = func() error { return nc.Connect(context.Background(), "verif:502") }
+	case "serial":
+		opts := []modbus.SerialClientOptionFunc{modbus.WithSerialReadTimeout(timeout)}
+		if hk != nil {
+			opts = append(opts, modbus.WithSerialHooks(hk))
+		}
+		if serialNil {
+			ec.cl = modbus.NewSerialClient(nil, opts...)
+		} else {
+			ec.cl = modbus.NewSerialClient(ec.conn, opts...)
+			ec.connected = true
+		}
+		ec.connect = func() error { return nil }
+	}
+	return ec
+}
+
 func runExchange(c *exchCase, timeoutMs int) []Ev {
+	ec := newExchClient(c.Client, c.Hooks == 1, timeoutMs, c.Fault == "notconnected")
+	return ec.run(c, timeoutMs)
+}
+
+// run performs one request call on this client with the case's reply / script / fault
+func (ec *exchClient) run(c *exchCase, timeoutMs int) []Ev {
 	lg := &exchLog{}
 	a := c.Req
 	a.Framing = "tcp"
@@ -220,49 +279,16 @@ func runExchange(c *exchCase, timeoutMs int) []Ev {
 			"fault": "harness-constructor-refused", "hooks": c.Hooks, "pair": c.Pair, "timeoutMs": timeoutMs}}
 	}
 	lg.add(Ev{"ev": "reset", "client": c.Client, "req": argsEv(&a), "reqBytes": reqBytes, "explen": explen, "reply": orEmpty(c.Reply),
-		"script": c.Script, "fault": c.Fault, "hooks": c.Hooks, "pair": c.Pair, "timeoutMs": timeoutMs})
+		"script": c.Script, "fault": c.Fault, "hooks": c.Hooks, "pair": c.Pair, "timeoutMs": timeoutMs, "seqpos": c.SeqPos, "seqlen": c.SeqLen})
 
 	ctx, cancel := context.WithCancel(context.Background())
 	defer cancel()
 	script := make([]step, len(c.Script))
 	copy(script, c.Script)
-	conn := &scriptConn{log: lg, reply: bytesOf(c.Reply), script: script, cancel: cancel, serial: c.Client == "serial", fault: c.Fault}
-	var hooks modbus.ClientHooks
-	if c.Hooks == 1 {
-		hooks = &hookRec{log: lg}
-	}
-	timeout := time.Duration(timeoutMs) * time.Millisecond
-	var cl doer
-	switch c.Client {
-	case "tcp", "rtu":
-		conf := modbus.ClientConfig{ReadTimeout: timeout, WriteTimeout: timeout,
-			DialContextFunc: func(ctx context.Context, address string) (net.Conn, error) { return conn, nil }}
-		if hooks != nil {
-			conf.Hooks = hooks
-		}
-		var nc *modbus.Client
-		if c.Client == "tcp" {
-			nc = modbus.NewTCPClientWithConfig(conf)
-		} else {
-			nc = modbus.NewRTUClientWithConfig(conf)
-		}
-		if c.Fault != "notconnected" {
-			if err := nc.Connect(context.Background(), "verif:502"); err != nil {
-				panic(err)
-			}
-		}
-		cl = nc
-	case "serial":
-		opts := []modbus.SerialClientOptionFunc{modbus.WithSerialReadTimeout(timeout)}
-		if hooks != nil {
-			opts = append(opts, modbus.WithSerialHooks(hooks))
-		}
-		if c.Fault == "notconnected" {
-			cl = modbus.NewSerialClient(nil, opts...)
-		} else {
-			cl = modbus.NewSerialClient(conn, opts...)
-		}
-	}
+	// (re)load the transport for this exchange
+	conn := ec.conn
+	conn.log, conn.reply, conn.off, conn.script, conn.pos, conn.cancel, conn.fault = lg, bytesOf(c.Reply), 0, script, 0, cancel, c.Fault
+	cl := ec.cl
 	if c.Fault == "nilreq" {
 		req = nil
 	}
@@ -282,6 +308,12 @@ func runExchange(c *exchCase, timeoutMs int) []Ev {
 			}
 			done <- r
 		}()
+		if c.Fault != "notconnected" && !ec.connected {
+			if err := ec.connect(); err != nil {
+				panic(err)
+			}
+			ec.connected = true
+		}
 		r.resp, r.err = cl.Do(ctx, req)
 	}()
 	ret := Ev{"ev": "return", "kind": "", "reenc": []int{}, "excUnit": 0, "excFc": 0, "excCode": 0, "isClientError": 0, "wrapsCause": 0,
@@ -385,6 +417,22 @@ func driveClient(w *writer) error {
 				case "pair":
 					evs := runExchange(c.A, timeoutMs)
 					evs = append(evs, runExchange(c.B, timeoutMs)...)
+					w.emitAll(evs)
+				case "seq":
+					// a history of request calls on ONE client instance
+					if len(c.Seq) == 0 {
+						continue
+					}
+					ec := newExchClient(c.Seq[0].Client, c.Seq[0].Hooks == 1, timeoutMs, c.Seq[0].Fault == "notconnected" && c.Seq[0].Client == "serial")
+					evs := []Ev{}
+					for i, x := range c.Seq {
+						x.SeqPos, x.SeqLen = i, len(c.Seq)
+						one := ec.run(x, timeoutMs)
+						evs = append(evs, one...)
+						if k, _ := one[len(one)-1]["kind"].(string); k == "hang" {
+							break // the client is stuck: nothing more can be learnt from this instance
+						}
+					}
 					w.emitAll(evs)
 				}
 			}
